@@ -24,6 +24,11 @@ names into a different syntactic position / scope:
     condexpr        conditional-expression chains
     paren_global    global names written in parentheses
     comp_after_lambda  a lambda defined in the formula, then a list comprehension with the globals
+    attr_module     attribute access whose attribute is spelled like a global name of the space:
+                    `datetime.datetime(2020, 1, i + 1).day - (i + 1)` with `datetime` a module-valued
+                    reference (contribution 0): the object must become self.datetime, the
+                    attribute must stay.  (`n.n` on space-valued references is part of the
+                    programs themselves, see export_driver._attr_like_global.)
 
 The meaning of a record (see MxSem.EvOps / Den): the contributions of the ops are evaluated left to
 right and summed; a call contributes 7 when the callee returned None; `raise e` raises
@@ -49,7 +54,7 @@ from . import concretise as cz
 #                      the comprehension were not rewritten -> NameError in the package.
 TEMPLATES = ["plain", "lambda", "listcomp", "genexp", "dictcomp", "thunks", "nested_def", "nonlocal",
              "shadow_builtin", "shadow_global", "lambda_default", "condexpr",
-             "paren_global", "comp_after_lambda"]
+             "paren_global", "comp_after_lambda", "attr_module"]
 
 BUILTIN_LOCALS = ["sum", "max", "len", "min", "abs", "any", "all", "round", "sorted", "iter"]
 NONE_WRAP = "(lambda _t: %d if _t is None else _t)(%%s)" % cz.NONE_CONTRIB
@@ -169,6 +174,17 @@ def _body(tname, terms, ps, ctx):
                 L.append("_a += (%s if _z == %d else -1 if _z > 99 else 0)" % (t, len(ps)))
             else:
                 L.append("_a += (0 if _z != %d else %s)" % (len(ps), t))
+    elif tname == "attr_module":
+        mods = ctx.get("modules", [])
+        k = ps[0][0] if ps else None
+        L.append("_a = 0")
+        for i, t in enumerate(terms):
+            L.append("_a += %s" % t)
+            if "datetime" in mods and i in (0, len(terms) - 1):
+                if k:       # (keys stay far below 31)
+                    L.append("_a += datetime.datetime(2020, 1, %s + 1).day - (%s + 1)" % (k, k))
+                else:
+                    L.append("_a += datetime.datetime(2020, 1, 1).day - datetime.date(2020, 2, 1).day")
     elif tname == "paren_global":
         L.append("_a = 0")
         for t in terms:
